@@ -8,7 +8,7 @@ CLAIMS = {
   category="proof",
   text="Contract-based deductive proof, for all array lengths and all iterations, that the containment, touching-window, "
        "overlap-index, gap (diff), break-finding and sortedness-check functions return exactly their set-theoretic "
-       "definitions and reject unsorted input; VCs are generated from the real source on every run and discharged by z3/cvc5. "
+       "definitions and reject unsorted input, and that _get_empty_container_ids (helper of split_by_containment) returns exactly the container numbers that are not full, in order; VCs are generated from the real source on every run and discharged by z3/cvc5. "
        "split_by_containment, abs_time_to_prev_next_interval and sort_by_time are outside the verified subset and are covered by "
        "bounded stand-ins (labelled bounded in the evidence, not counted as proved).",
   note="Trusted: the pyvc VC generator, z3/cvc5, the np.argsort(mergesort) library model, integers as mathematical integers, "
@@ -60,13 +60,15 @@ CLAIMS = {
   text="Bounded exploration on the real code against direct definitions - this is what decides most of the property: find_peaks = "
        "gap-threshold clusters with the duration / area / channel cuts and all peak fields, area conservation of the "
        "hits->peaks->sum_waveform chain, store_downsampled_waveform (smallest fitting factor, block sums, only a fractional tail "
-       "dropped), merge_peaks, replace_merged, tiling of split peaks by both split finders (also on down-sampled parents), sum_waveform "
-       "on split children, index_of_fraction and highest_density_region against their defining formulas. One helper is proved deductively for all inputs: "
+       "dropped), merge_peaks, find_peak_groups, replace_merged (also with merged peaks floored to a coarser sampling grid), tiling of split peaks by both split finders (also on down-sampled parents), sum_waveform "
+       "on split children, index_of_fraction and highest_density_region against their defining formulas. Two functions are proved deductively for all inputs: "
+       "_replace_merged (the kernel of replace_merged) puts every merged row and every original row outside the ordered, disjoint, non-empty skip windows into the result, "
+       "whole, in order, and nothing else (loop invariant with a ghost count of skipped rows and an inductive window lemma); "
        "symmetric_moving_average returns the mean of a[max(0,i-w)..min(n-1,i+w)] for every waveform and wing width (prefix-sum ghost "
        "function over the reals). Known finding F10 (overlap after a max_duration cut) is reported as KNOWN-FINDING.",
-  note="The level is 'exploration', not 'proof': only one function is under contract (the peak kernels are growing_result generators "
-       "over float fields, outside the verifier's subset - said in DESIGN.md); widths and highest-density regions are not covered. "
-       "Floats are modelled as reals in the one proof.",
+  note="The level is 'exploration', not 'proof': only two functions are under contract (the other peak kernels are growing_result generators "
+       "over float fields, outside the verifier's subset - said in DESIGN.md); the wrapper replace_merged (touching_windows call, result size) is bounded only; widths are not covered. "
+       "Floats are modelled as reals in the moving-average proof; a peak row is modelled by 7 representative fields in the _replace_merged proof.",
   technique="contract-based deductive verification (ghost prefix sums, z3) + bounded stand-ins",
   design_ref="DESIGN.md section 6, C19"),
  "C10": dict(
@@ -247,12 +249,14 @@ CLAIMS = {
        "plugin that saves by default reaches its computation only with inputs that all cover one identical time interval (otherwise "
        "ValueError before compute), the computation gets exactly the rows of every input (chunk_i / start / end exactly when it takes "
        "them), the result is declared to cover exactly that interval and inherits the inputs' common run annotations; Chunk.split (used "
-       "for every trim) obeys the laws of chunking. The behaviour of Plugin.iter as a whole - time-aligned adjacent calls, same-kind "
+       "for every trim) obeys the laws of chunking; Plugin._fetch_chunk appends the next chunk of exactly the data type asked for behind what is buffered "
+       "(order kept, nothing dropped), answers False only for an exhausted source whose buffer reaches the time needed, raises RuntimeError otherwise and leaves the buffer alone on exhaustion. The behaviour of Plugin.iter as a whole - time-aligned adjacent calls, same-kind "
        "inputs merged row by row, every input row delivered exactly once in order, errors for undeliverable rows - is a bounded stand-in "
        "on the real Plugin.iter driven by hand-made chunk iterators (found defect F11, fixed).",
   note="The level is 'exploration' because Plugin.iter (generator over a dict of input buffers with pacemaker, fetch loops, re-trim "
        "passes and end-of-run checks) is not under contract; proved for all inputs are do_compute (per arity, single-output plugins), "
-       "Chunk.split, Chunk.concatenate and Chunk.merge of two chunks. The stand-in also covers per-chunk processing (chunk_i).",
+       "Plugin._fetch_chunk (over opaque chunks, Chunk.concatenate as an uninterpreted function whose own two-chunk contract is proved), "
+       "Chunk.split, Chunk.concatenate and Chunk.merge of two chunks. The stand-in also covers per-chunk processing (chunk_i), a non-pacemaker dependency that runs out mid-run and a dependency that goes on after a zero-duration chunk.",
   technique="contract-based deductive verification (per-arity symbolic execution with recorded call arguments) + bounded stand-in on the real Plugin.iter",
   design_ref="DESIGN.md section 6 (C08) and 10"),
  "C09": dict(
